@@ -257,7 +257,7 @@ func RunPlan(run *ev.Run, plan Plan, replay string) {
 			w = 16
 		}
 		res, err := tlc.Run(tlc.Options{SpecDir: specDir(), Module: "GluonCore", Cfg: filepath.Join(specDir(), "cfg", e.File),
-			Workers: w, Timeout: e.Timeout, KeepOutput: true, HeapGB: 16})
+			Workers: w, Timeout: e.Timeout, KeepOutput: true, HeapGB: 12})
 		if err != nil {
 			run.Machinery("tlc %s: %v", e.File, err)
 			return
